@@ -41,6 +41,11 @@ func runC08(ctx *core.Ctx) {
 		notEq := hasFact(g.FactsAtInstr(r), false, isCallOf([]string{"bytes.Equal"}, isVal(oldT), isVal(newT)))
 		c, isCall := v.(*ssa.Call)
 		buf := isCall && ssax.CalleeName(&c.Call) == "(*bytes.Buffer).Bytes"
+		if buf {
+			// the buffer is a fresh local of this call (a pooled or shared buffer would be overwritten by the next call)
+			_, local := c.Call.Args[0].(*ssa.Alloc)
+			buf = local
+		}
 		hdr := 0
 		for _, fp := range g.Calls("fmt.Fprintf") {
 			if g.Dominates(fp, r) {
@@ -332,9 +337,21 @@ func runC08(ctx *core.Ctx) {
 	} else {
 		ctx.Unknown("F7", "diff.tgs", token.NoPos, "anchor matcher not found")
 	}
+	// ---- F9 coordinate discipline
+	c08Coordinates(ctx, d, xs, ys)
 	// ---- F4
 	if l := ctx.Need("F4", "diff", "lines"); l != nil {
 		lg := graph(p, l)
+		// the text is split as it is: SplitAfter(string(x), "\n") of the parameter itself
+		okSplit := false
+		for _, c := range lg.Calls("strings.SplitAfter", "bytes.SplitAfter") {
+			arg := c.Call.Args[0]
+			if cv, ok := arg.(*ssa.Convert); ok {
+				arg = cv.X
+			}
+			okSplit = arg == ssa.Value(l.Params[0]) && isConstStr("\n")(c.Call.Args[1])
+		}
+		ctx.Check(okSplit, "F4", "diff.lines#split-verbatim", l.Pos(), "lines splits the text itself after each \\n, byte for byte (no normalisation such as CRLF folding: Diff decides identity on the raw bytes)")
 		ok := false
 		lg.Instrs(func(i ssa.Instruction) {
 			b, isB := i.(*ssa.BinOp)
@@ -394,4 +411,149 @@ func runC08(ctx *core.Ctx) {
 			ctx.Check(ok, "F5", "testscript.doCmdCmp#diff-operands", c.Pos(), "the diff printed on failure is computed from the very two texts whose equality was tested (for cmpenv: the expanded text)")
 		}
 	}
+}
+
+// c08Coordinates: every index, slice bound and comparison in Diff keeps the old
+// side (x: lines of old, pair.x, len(x)) and the new side (y) apart.
+func c08Coordinates(ctx *core.Ctx, d *ssa.Function, xs, ys ssa.Value) {
+	ctx.Rule("F9", "coordinate discipline: positions in the old text (fields .x of the pair values, len of the old line table) index and are compared only with old-side quantities, and likewise for the new side (.y); a mixed comparison or index (e.g. start.y > done.x) walks into lines already emitted", 10)
+	p := ctx.P
+	g := graph(p, d)
+	if xs == nil || ys == nil {
+		ctx.Unknown("F9", "diff.Diff#tables", d.Pos(), "line tables not found")
+		return
+	}
+	memo := map[ssa.Value]string{}
+	var dim func(v ssa.Value, depth int) string
+	dim = func(v ssa.Value, depth int) string {
+		if r, ok := memo[v]; ok {
+			return r
+		}
+		if depth > 8 {
+			return "?"
+		}
+		memo[v] = "?"
+		r := "?"
+		switch x := v.(type) {
+		case *ssa.Const:
+			r = "*"
+		case *ssa.UnOp:
+			if fa, ok := x.X.(*ssa.FieldAddr); ok && x.Op == token.MUL {
+				if f := ssax.FieldOf(fa); f != nil && isNamed(fa.X.Type(), core.ModPath+"/diff", "pair") {
+					r = strings.ToUpper(f.Name())
+				}
+			}
+		case *ssa.Field:
+			if f := ssax.FieldOf(x); f != nil && isNamed(x.X.Type(), core.ModPath+"/diff", "pair") {
+				r = strings.ToUpper(f.Name())
+			}
+		case *ssa.Call:
+			if b, ok := x.Call.Value.(*ssa.Builtin); ok && b.Name() == "len" {
+				switch x.Call.Args[0] {
+				case xs:
+					r = "X"
+				case ys:
+					r = "Y"
+				}
+			}
+			if b, ok := x.Call.Value.(*ssa.Builtin); ok && (b.Name() == "min" || b.Name() == "max") {
+				r = "*"
+				for _, a := range x.Call.Args {
+					da := dim(a, depth+1)
+					if da == "X" || da == "Y" {
+						if r != "*" && r != da {
+							r = "!"
+						} else {
+							r = da
+						}
+					}
+				}
+			}
+		case *ssa.BinOp:
+			if x.Op == token.ADD || x.Op == token.SUB {
+				a, b := dim(x.X, depth+1), dim(x.Y, depth+1)
+				switch {
+				case a == "*" || a == "?":
+					r = b
+				case b == "*" || b == "?":
+					r = a
+				case a == b && x.Op == token.SUB:
+					r = "*" // a difference of two positions on one side is a plain count
+				case a == b:
+					r = a
+				default:
+					r = "!"
+				}
+			}
+		case *ssa.Phi:
+			r = "*"
+			for _, e := range x.Edges {
+				de := dim(e, depth+1)
+				if de == "X" || de == "Y" {
+					if r != "*" && r != de {
+						r = "!"
+					} else {
+						r = de
+					}
+				}
+			}
+		case *ssa.Convert:
+			r = dim(x.X, depth+1)
+		}
+		memo[v] = r
+		return r
+	}
+	compat := func(a, b string) bool {
+		return a == b || a == "*" || b == "*" || a == "?" || b == "?"
+	}
+	n := 0
+	g.Instrs(func(i ssa.Instruction) {
+		switch x := i.(type) {
+		case *ssa.BinOp:
+			switch x.Op {
+			case token.LSS, token.LEQ, token.GTR, token.GEQ, token.EQL, token.NEQ:
+			default:
+				return
+			}
+			if !isIntT(x.X.Type()) {
+				return
+			}
+			a, b := dim(x.X, 0), dim(x.Y, 0)
+			if (a != "X" && a != "Y") || (b != "X" && b != "Y") {
+				return
+			}
+			n++
+			ctx.Check(compat(a, b), "F9", "diff.Diff#compare"+itoa(n), x.Pos(), "comparison between a %s-side and a %s-side position", a, b)
+		case *ssa.IndexAddr:
+			want := ""
+			switch x.X {
+			case xs:
+				want = "X"
+			case ys:
+				want = "Y"
+			default:
+				return
+			}
+			di := dim(x.Index, 0)
+			n++
+			ctx.Check(compat(di, want), "F9", "diff.Diff#index"+itoa(n), x.Pos(), "%s-side line table indexed with a %s-side position", want, di)
+		case *ssa.Slice:
+			want := ""
+			switch x.X {
+			case xs:
+				want = "X"
+			case ys:
+				want = "Y"
+			default:
+				return
+			}
+			for _, bnd := range []ssa.Value{x.Low, x.High} {
+				if bnd == nil {
+					continue
+				}
+				n++
+				ctx.Check(compat(dim(bnd, 0), want), "F9", "diff.Diff#slice"+itoa(n), x.Pos(), "%s-side line table sliced with a %s-side bound", want, dim(bnd, 0))
+			}
+		}
+	})
 }
